@@ -87,8 +87,35 @@ func symSet(ss []analysis.DocumentSymbol) []string {
 	return out
 }
 
+// a fixed text whose diagnostics depend on the signature of every built-in and on every kind of declaration: analysing
+// any other document must not change what it is told (process-wide state)
+const sentinelText = "vars {\n monetary $b = balance(5, 6)\n string $m = meta(7, 8)\n monetary $o = overdraft(9, 10)\n portion $p\n}\n" +
+	"set_account_meta(@a, 5, 1)\nset_tx_meta(5, 1)\nset_account_meta(1, \"k\", $p)\nsend [USD 1] (\n source = { $p from @a\n remaining from @b }\n destination = $m\n)\n"
+
+var sentinelFirst string
+
+func sentinelNow() string {
+	out := "panic"
+	func() {
+		defer func() { recover() }()
+		r := analysis.CheckSource(sentinelText)
+		out = strings.Join(diagSet(r.Diagnostics), "|") + "#" + strings.Join(symSet(r.GetSymbols()), "|")
+	}()
+	return out
+}
+
 func observeAnalysis(text string) J {
-	obs := J{"panic": "", "timeout": false, "diags": []any{}, "deterministic": true, "positions": 0, "nsyms": 0}
+	obs := J{"panic": "", "timeout": false, "diags": []any{}, "deterministic": true, "positions": 0, "nsyms": 0, "sentinel": true}
+	if sentinelFirst == "" {
+		sentinelFirst = sentinelNow()
+	}
+	defer func() {
+		// what analysing this document did to the analysis of the fixed sentinel text
+		if sentinelNow() != sentinelFirst {
+			obs["sentinel"] = false
+			sentinelFirst = sentinelNow() // report each change once
+		}
+	}()
 	lines := strings.Split(text, "\n")
 	msg, to := withTimeout(20*time.Second, func() {
 		stage := "check"
